@@ -85,8 +85,8 @@ def run(ctx):
                     "recover must verify under Strobe::new(\"adss\"); transcript starts with %s" % Q.show_trace(tr[:1], 3),
                     ctx.fn("adss::recover").loc, sample=Q.show_trace(tr, 3))
     # share and verify build the same authenticated transcript, including the optional custom transcript T
-    c05.transcript_agreement(ctx, "C16.R2", "C16.R2")
-    ctx.floor("C16.R2", 10)
+    c05.transcript_agreement(ctx, "C16.R2", "C16.R2", strict=False)
+    ctx.floor("C16.R2", 6)
     ctx.floor("C16.R4", 2)
 
     # ---- R3 zero-share / threshold-0 refusal --------------------------------------------------------------
@@ -108,7 +108,13 @@ def run(ctx):
     if it:
         sl = it[0]["argv"][0]
         # with threshold 0 the slice values[0..0] is empty, which interpolate refuses: needs the slice bound to be the threshold
-        okz = sl.op == "slice" and Q.params(Q.leaves(sl.args[2])) == {"self.0"}
+        from .. import lin
+        Lz = lin.Ctx()
+        okz = False
+        if sl.op == "slice":
+            w = Lz.lin(sl.args[2]).add(Lz.lin(sl.args[1]), -1)
+            # the window's width is exactly the threshold term
+            okz = len(w.t) == 1 and w.c == 0 and list(w.t.values())[0] == 1 and Q.params(Q.leaves(list(w.t)[0])) == {"self.0"}
     ctx.add("C16.R3", "star_sharks::Sharks::recover#threshold-0-gives-empty-slice", okz,
             "the slice handed to interpolate must be bounded by the threshold (threshold 0 => empty => refused)",
             ctx.fn("star_sharks::Sharks::recover").loc)
